@@ -1,11 +1,13 @@
 import Bardolph.Driver.TimePattern
 import Bardolph.Driver.Vm
+import Bardolph.Driver.Web
 /-! All driver handlers; `dispatch` routes one request line. -/
 namespace Bardolph.Driver
 
 def handlers : List (String → List String → Option String) := [
   TP.handle,
-  VmD.handle
+  VmD.handle,
+  Web.handle
 ]
 
 def dispatch (line : String) : String :=
